@@ -44,6 +44,7 @@ func main() {
 	prop := flag.String("prop", "", "property id (C01..C20) or 'all'")
 	tier := flag.String("tier", "", "quick|thorough")
 	dump := flag.String("dump", "", "debug: dump SSA of pkgrel:func")
+	dumpObl := flag.Bool("dumpobl", false, "debug: print every obligation key")
 	mutantSpec := flag.String("mutant", "", "self-test: analyse the tree with mutant file.json:id applied as an overlay (exit 3 if its context is not found)")
 	noFx := flag.Bool("nofixtures", false, "debug: skip positive controls")
 	only := flag.String("only", "", "debug: run only rules with this prefix")
@@ -156,6 +157,11 @@ func main() {
 					runThorough(id, d, p, r, *repo, *verif)
 				}
 			}()
+		}
+		if *dumpObl {
+			for _, o := range r.Obls {
+				fmt.Printf("OBL\t%s\t%s\t%s\t%s\n", o.Rule, o.Construct, o.Kind, o.Status)
+			}
 		}
 		code := r.Finish(d.explanation, d.assumptions, d.notCovered)
 		if code > exit {
